@@ -78,7 +78,12 @@ META = dict(
                      'p_qualifierDeclaration', 'p_classDeclaration',
                      'p_instanceDeclaration',
                      'MOFCompiler.compile_embedded_value',
-                     'fold.cuts', 'fold.cuts-at-blank', 'fold.cuts-in-word'],
+                     'fold.cuts', 'fold.cuts-at-blank', 'fold.cuts-in-word',
+                     'literal.joints',
+                     'literal.short-hex.at-end-of-literal.next-literal-'
+                     'starts-with-hex-digit',
+                     'literal.short-hex.before-non-ascii-digit',
+                     'history.redeclarations'],
 )
 
 REACH = ['pywbem._cim_obj:mofstr', 'pywbem._cim_obj:_mof_escaped',
@@ -213,7 +218,9 @@ def classify_leaf(path, a, b):
     return None
 
 
-def attempt(ctx, env, kind, obj, decls, classes, maxline):
+def attempt(ctx, env, kind, obj, decls, classes, maxline, ns=None):
+    """ns: compile into this namespace, which already holds what the object
+    needs (a history on one compiler), instead of a new one."""
     rec = ctx.state['rec']
     att = Attempt()
     del rec.calls[:]
@@ -224,7 +231,8 @@ def attempt(ctx, env, kind, obj, decls, classes, maxline):
         return att
     analyse_cuts(att, rec.calls)
     del rec.calls[:]
-    ns = env.namespace(decls, classes)
+    if ns is None:
+        ns = env.namespace(decls, classes)
     budget = plan(ctx.tier)['case_cpu_s']
     try:
         with mofgen.cpu_limit(COMPILE_CPU_S, budget):
@@ -253,11 +261,49 @@ def attempt(ctx, env, kind, obj, decls, classes, maxline):
     g = project(kind, got, written)
     for path, a, b in pdiff(e, g, limit=40):
         key = classify_leaf(path, a, b)
+        if key is None and kind == 'instance' and a == ('list',) and \
+                b is None and '/property:' in path and \
+                obj.properties[path.rsplit('/property:', 1)[1].split('/')[0]
+                               ].embedded_object:
+            key = 'mof.embedded-array.empty.compiled-to-null'
         if key:
             att.known.append((key, path, a, b))
         else:
             att.diffs.append((path, a, b))
+    if kind == 'class':
+        att.diffs.extend(flavor_diffs(got, decls))
     return att
+
+
+def flavor_diffs(cls, decls):
+    """tomof() writes no flavors on qualifier values, so a compiled qualifier
+    value has the flavors of its declaration ("given the needed qualifier
+    declarations"): compared where the declaration defines them."""
+    declmap = {d.name.lower(): d for d in decls}
+    out = []
+
+    def walk(path, quals):
+        for q in quals.values():
+            d = declmap.get(q.name.lower())
+            if d is None:
+                continue
+            for f in ('overridable', 'tosubclass'):
+                if getattr(d, f) is not None and \
+                        getattr(q, f) != getattr(d, f):
+                    out.append(('%s/qualifier:%s/flavor-%s' % (path, q.name,
+                                                               f),
+                                getattr(d, f), getattr(q, f)))
+            if d.translatable and not q.translatable:
+                out.append(('%s/qualifier:%s/flavor-translatable'
+                            % (path, q.name), True, q.translatable))
+    walk('/class', cls.qualifiers)
+    for p in cls.properties.values():
+        walk('/class/property', p.qualifiers)
+    for m in cls.methods.values():
+        walk('/class/method', m.qualifiers)
+        for a in m.parameters.values():
+            walk('/class/method/parameter', a.qualifiers)
+    return out
 
 
 REAL_NO_POINT = re.compile(r'(?<![\w.])[+-]?\d+[eE][+-]?\d+(?![\w.])')
@@ -314,18 +360,45 @@ def report_known(ctx, att, kind, detail):
                       dict(detail, path=path))
 
 
-def run_object(ctx, envbox, kind, obj, decls, classes, maxline, tags):
+def where(att):
+    if att.exc is not None:
+        return symptom(att)
+    return generic_path(att.diffs[0][0]) if att.diffs else 'equal'
+
+
+def run_object(ctx, envbox, kind, obj, decls, classes, maxline, tags,
+               hist=None):
     """Evaluate one object; returns True if it round-trips (possibly modulo
-    understood, reported mechanisms)."""
+    understood, reported mechanisms).  hist: the object is one step of a
+    history on one compiler and one namespace (dict with 'ns', 'label',
+    'steps')."""
     ctx.evaluated()
-    ctx.cls(kind)
+    ctx.cls(kind if hist is None else 'history:' + kind)
     for t in set(tags):
         ctx.cls('value:' + t)
     detail = {'kind': kind, 'maxline': maxline,
               'repr': short(repr(obj), 1500)}
-    att = attempt(ctx, envbox[0], kind, obj, decls, classes, maxline)
+    att = attempt(ctx, envbox[0], kind, obj, decls, classes, maxline,
+                  ns=hist['ns'] if hist else None)
     if att.exc is not None and att.stage != 'tomof':
         envbox[0] = Env()       # never reuse a compiler that raised
+    if hist is not None and not att.clean and att.stage != 'tomof':
+        # differential: the same object on a compiler without history, the
+        # declarations put into the repository directly
+        detail['history'] = list(hist['steps'])
+        detail['mof'] = short(att.text or '', 2500)
+        fresh = Env()
+        a0 = attempt(ctx, fresh, kind, obj, decls, classes, maxline)
+        if a0.clean:
+            ctx.count('history.differs-from-fresh-compiler')
+            ctx.violation(
+                'mof.same-compiler.%s:%s' % (hist['label'], where(att)),
+                '%s compiled by a compiler that had compiled other MOF '
+                'before (%s) does not recompile to the same object (%s); '
+                'a fresh compiler given the same declarations returns it '
+                'unchanged' % (kind, hist['label'], describe(att)), detail)
+            ctx.outcome('history')
+            return False
     detail['mof'] = short(att.text or '', 2500)
     ctx.count('fold.cuts', att.cuts)
     ctx.count('fold.cuts-at-blank', att.blank_cuts)
@@ -417,6 +490,27 @@ def run_object(ctx, envbox, kind, obj, decls, classes, maxline, tags):
                           'times inside an escape sequence'
                           % (kind, describe(a3), a3.dangling), detail)
             return True
+    # ---- value kinds: is one of them alone the cause? --------------------
+    if kind != 'qualifierdecl':
+        for name, neutral in (
+                ('mof.reference.class-path', mofgen.without_class_paths),
+                ('mof.embedded-array.null-entry',
+                 mofgen.without_null_embedded_entries)):
+            o4 = neutral(kind, obj)
+            if o4 is None:
+                continue
+            a4 = attempt(ctx, envbox[0], kind, o4, decls, classes, HUGE)
+            if a4.exc is not None:
+                envbox[0] = Env()
+            if a4.clean:
+                ctx.violation('%s:%s' % (name, symptom(final)),
+                              '%s does not recompile to the same object '
+                              '(%s); without its %s values it does'
+                              % (kind, describe(final),
+                                 name.split('.', 1)[1]), detail)
+                ctx.outcome(name.split('.', 1)[1])
+                report_known(ctx, a4, kind, detail)
+                return False
     # ---- not one of the understood mechanisms -------------------------
     detail['unfolded'] = describe(final)
     detail['unfolded_mof'] = short(final.text or '', 2500)
@@ -455,6 +549,193 @@ def describe(att):
         return '%d differences, first at %s: %s != %s' % (
             len(att.diffs), p, short(repr(a), 200), short(repr(b), 200))
     return 'equal'
+
+
+# ------------------------------------------------ hand-made string constants --
+
+LITERAL_MOF = '''Qualifier Key : boolean = false, Scope(property, reference);
+Qualifier LQ : string = {0}, Scope(any);
+Qualifier LA : string[] = {{ {1}, {2} }}, Scope(any);
+   [LQ ( {3} ), LA {{ {4} }}]
+class LC {{
+      [Key, LQ ( {5} )]
+   string k;
+   string p = {6};
+   string a[] = {{ {7}, {8} }};
+}};
+instance of LC {{ k = {9}; p = {10}; a = {{ {11} }}; }};
+'''
+LITERAL_SLOTS = 12
+
+
+def literal_values(handle, ns):
+    q = handle.qualifiers[ns]
+    c = handle.classes[ns]['LC']
+    i = handle.instances[ns][-1]
+    la = list(q['LA'].value)
+    ca = list(c.properties['a'].value)
+    return [q['LQ'].value, la[0], la[1], c.qualifiers['LQ'].value,
+            list(c.qualifiers['LA'].value)[0],
+            c.properties['k'].qualifiers['LQ'].value,
+            c.properties['p'].value, ca[0], ca[1],
+            i.properties['k'].value, i.properties['p'].value,
+            list(i.properties['a'].value)[0]]
+
+
+def compile_text(ctx, envbox, text, fetch):
+    """(exception, fetched values) of compiling text into a new namespace of
+    the case's compiler."""
+    env = envbox[0]
+    env.n += 1
+    ns = 'root/l%d' % env.n
+    budget = plan(ctx.tier)['case_cpu_s']
+    try:
+        with mofgen.cpu_limit(COMPILE_CPU_S, budget):
+            env.comp.compile_string(text, ns)
+        return None, fetch(env.handle, ns)
+    except Exception as exc:  # pylint: disable=broad-except
+        envbox[0] = Env()
+        return exc, None
+
+
+def literal_alone(ctx, envbox, lit):
+    exc, got = compile_text(
+        ctx, envbox, 'Qualifier LM : string = %s, Scope(any);\n' % lit,
+        lambda h, ns: h.qualifiers[ns]['LM'].value)
+    return exc, got
+
+
+def literal_symptom(exc):
+    if exc is None:
+        return 'value-changed'
+    if isinstance(exc, CaseTimeout):
+        return 'nontermination'
+    if isinstance(exc, MOFCompileError):
+        return '%s(%s)' % (type(exc).__name__, stem(exc.msg)[:40])
+    return type(exc).__name__
+
+
+def literal_mechanism(ctx, envbox, hm):
+    """Mechanism key for a hand-made constant that does not compile to its
+    value when it is compiled alone; None if it does."""
+    exc, got = literal_alone(ctx, envbox, hm.render())
+    if exc is None and got == hm.value:
+        return None, None
+    sym = literal_symptom(exc)
+    first = 'raised %s: %s' % (type(exc).__name__, short(str(exc), 200)) \
+        if exc is not None else 'compiled to %r' % short(got, 200)
+    for cat in hm.categories():
+        e2, g2 = literal_alone(ctx, envbox, hm.render(pad_category=cat))
+        if e2 is None and g2 == hm.value:
+            return ('mof.literal.short-hex-escape.%s:%s' % (cat, sym),
+                    first + '; with the %s short hex escapes written with 4 '
+                    'digits it compiles to the value' % cat)
+    e2, g2 = literal_alone(ctx, envbox, hm.render(pad_all=True))
+    if e2 is None and g2 == hm.value:
+        return ('mof.literal.short-hex-escape.several-positions:' + sym,
+                first + '; with all hex escapes written with 4 digits it '
+                'compiles to the value')
+    e2, g2 = literal_alone(ctx, envbox, hm.canonical())
+    if e2 is None and g2 == hm.value:
+        return ('mof.literal.hand-written-form:' + sym,
+                first + '; written as one literal in the form tomof() uses '
+                'it compiles to the value')
+    return ('mof.literal.any-form:' + sym,
+            first + '; also when written as one literal in the form '
+            'tomof() uses')
+
+
+def run_literals(ctx, envbox, rng):
+    hms = [mofgen.Handmade(rng, mofgen.handmade_string(rng))
+           for _ in range(LITERAL_SLOTS)]
+    text = LITERAL_MOF.format(*[h.render() for h in hms])
+    ctx.evaluated()
+    ctx.cls('handmade-literals')
+    ctx.count('literal.constants', len(hms))
+    ctx.count('literal.joints', sum(len(h.breaks) for h in hms))
+    for h in hms:
+        for cat in h.categories():
+            ctx.count('literal.short-hex.' + cat)
+    ctx.nontrivial(h64(text))
+    exc, got = compile_text(ctx, envbox, text, literal_values)
+    bad = [k for k in range(LITERAL_SLOTS)
+           if exc is not None or got[k] != hms[k].value]
+    if not bad:
+        ctx.outcome('literals-ok')
+        return
+    detail = {'kind': 'hand-made string constants', 'mof': short(text, 3000),
+              'first': 'raised %s: %s' % (type(exc).__name__,
+                                          short(str(exc), 300))
+              if exc is not None else
+              'constants %r compiled to other values' % bad}
+    found = False
+    for k in bad:
+        key, what = literal_mechanism(ctx, envbox, hms[k])
+        if key is None:
+            continue
+        found = True
+        ctx.violation(key, 'the string constant %s denotes %r but %s'
+                      % (short(hms[k].render(), 300),
+                         short(hms[k].value, 200), what),
+                      dict(detail, constant=hms[k].render(),
+                           value=repr(hms[k].value)))
+    if not found:
+        ctx.violation('mof.literal.in-context:' + literal_symptom(exc),
+                      'string constants that compile to their values when '
+                      'alone do not inside a schema: %s' % detail['first'],
+                      detail)
+    ctx.outcome('literals-differ')
+
+
+# ------------------------------------------ histories on one compiler object --
+
+def run_history(ctx, envbox, rng):
+    """Declarations are given by compiling their tomof() text; classes use
+    them; then the same qualifier names are declared again with other types,
+    values and flavors and used again - all on the compiler that already
+    compiled this case's objects, in one namespace."""
+    env = envbox[0]
+    env.n += 1
+    ns = 'root/h%d' % env.n
+    taken = set()
+    qnames = mofgen.idents(rng, rng.choice([1, 2, 3]), taken)
+    cnames = mofgen.idents(rng, 4, taken, keywords=0)
+    dep = mofgen.dep_class(rng, cnames[0], taken)
+    env.handle.CreateClass(copy.deepcopy(dep), namespace=ns)
+    steps = []
+    earlier = {}
+    for gen in range(rng.choice([2, 2, 3])):
+        label = 'declarations-compiled-first' if gen == 0 else \
+            'after-qualifier-redeclaration'
+        hist = {'ns': ns, 'label': label, 'steps': steps}
+        decls = mofgen.special_declarations(rng)
+        dtags = [[] for _ in decls]
+        for qn in qnames:
+            tags = []
+            # (a re-declaration changes the type)
+            types = [t for t in mofgen.SIMPLE_TYPES if t != earlier.get(qn)]
+            d = mofgen.qualifier_declaration(rng, qn, tags=tags,
+                                             cimtype=rng.choice(types))
+            earlier[qn] = d.type
+            decls.append(d)
+            dtags.append(tags)
+        for d, tags in zip(decls, dtags):
+            steps.append('qualifier %s : %s%s' % (d.name, d.type,
+                                                  '[]' if d.is_array else ''))
+            ok = run_object(ctx, envbox, 'qualifierdecl', d, [], [],
+                            pick_maxline(rng), tags, hist=hist)
+            if envbox[0] is not env or not ok:
+                return      # the history is lost with the compiler
+        tags = []
+        cls = mofgen.cimclass(rng, cnames[1 + gen], decls, [dep], tags)
+        steps.append('class %s' % cls.classname)
+        ok = run_object(ctx, envbox, 'class', cls, decls, [dep],
+                        pick_maxline(rng), tags, hist=hist)
+        if envbox[0] is not env or not ok:
+            return
+        ctx.count('history.generations')
+        if gen:
+            ctx.count('history.redeclarations', len(qnames))
 
 
 def pick_maxline(rng):
@@ -510,3 +791,8 @@ def run_case(ctx, i, rng):
             continue
         run_object(ctx, envbox, 'instance', inst, decls, deps + [cls],
                    pick_maxline(rng), tags)
+    # ---- the same compiler goes on: hand-written constants, histories ------
+    if rng.random() < 0.6:
+        run_literals(ctx, envbox, rng)
+    if rng.random() < 0.4:
+        run_history(ctx, envbox, rng)
